@@ -41,7 +41,24 @@ CaseSet == {[kind |-> "program", entry |-> "main.go", pre |-> s, e |-> e] : s \i
       \cup {[kind |-> "template", entry |-> "index.html", pre |-> s, e |-> e] : s \in Seqs, e \in 1..Len(TmplErr)}
 Source(c) == IF c.kind = "program" THEN ProgHead \o Text(c.pre) \o <<10>> \o ProgOpen \o ProgErr[c.e] \o ProgClose
              ELSE Text(c.pre) \o TmplErr[c.e]
-Cases == LET S == SetToSeq(CaseSet) IN
-  [i \in 1..Len(S) |-> [id |-> i, kind |-> S[i].kind, entry |-> S[i].entry, src |-> Source(S[i])]]
+\* ---- second case space: position-shifting pieces INSIDE the expression, before the token in error on the same line
+\* (rune, string and raw string literals with multi-byte characters, a general comment): the error is the undefined x
+ExprPieces == <<
+    <<39, 195, 169, 39, 32, 43, 32>>,
+    <<34, 195, 169, 226, 130, 172, 34, 32, 43, 32>>,
+    <<47, 42, 32, 195, 169, 32, 42, 47, 32>>,
+    <<96, 195, 169, 96, 32, 43, 32>>,
+    <<39, 97, 39, 32, 43, 32>>,
+    <<39, 92, 110, 39, 32, 43, 32>>,
+    <<39, 226, 130, 172, 39, 32, 43, 32>> >>
+    \* 'é' +  | "é€" +  | /* é */  | `é` +  | 'a' +  | '\n' +  | '€' + 
+ExprSeqs == UNION {[1..n -> 1..Len(ExprPieces)] : n \in 1..2}
+RECURSIVE ECat(_, _)
+ECat(sq, i) == IF i > Len(sq) THEN <<>> ELSE ExprPieces[sq[i]] \o ECat(sq, i + 1)
+ExprSet == {[kind |-> "program", entry |-> "main.go", src |-> ProgHead \o ProgOpen \o <<95, 32, 61, 32>> \o ECat(q, 1) \o <<120>> \o ProgClose] : q \in ExprSeqs}
+     \cup {[kind |-> "template", entry |-> "index.html", src |-> <<97, 32, 123, 123, 32>> \o ECat(q, 1) \o <<120, 32, 125, 125>>] : q \in ExprSeqs}
+Cases == LET S == SetToSeq(CaseSet) E == SetToSeq(ExprSet) IN
+  [i \in 1..(Len(S) + Len(E)) |-> IF i <= Len(S) THEN [id |-> i, kind |-> S[i].kind, entry |-> S[i].entry, src |-> Source(S[i])]
+                                   ELSE [id |-> i, kind |-> E[i - Len(S)].kind, entry |-> E[i - Len(S)].entry, src |-> E[i - Len(S)].src]]
 ASSUME ndJsonSerialize("cases.ndjson", Cases)
 =============================================================================
